@@ -152,6 +152,69 @@ pub fn run(rep: &mut Rep) {
             add_counters(rep, &s.w);
         }
     }
+    // acknowledgements across connections of the same Context: whatever was left of an acknowledgement whose write failed
+    // belongs to the dead connection; the new connection carries exactly one acknowledgement per packet it delivers
+    rep.note("acknowledgement write failure, then a new connection: the write of a PUBACK / PUBREC / PUBCOMP fails after 0-3 bytes, run() ends, the same Context is connected again (no disconnection recorded / session resumed / session expired), the broker delivers QoS 0/1/2 PUBLISH and PUBREL packets: the new wire carries exactly their acknowledgements, in order");
+    let mut fidx = total + 60_000_000;
+    for which in 0..3u8 {
+        for fail_at in 0..4usize {
+            for mode in 0..3u8 {
+                let id = format!("ackfail:{which}:{fail_at}:{mode}");
+                fidx += 1;
+                if !rep.take(fidx, &id) {
+                    continue;
+                }
+                let mut w = World::boot(WorldCfg { seed: rep.seed, sei: if mode == 2 { None } else { Some(3600) }, ..Default::default() });
+                let a = w.start(0, Kind::Sub);
+                w.settle_check();
+                w.deliver_ack(a, 1, 0, 0);
+                w.settle_check();
+                w.take_stream(a);
+                let sid = w.sub_id_of(a).unwrap_or(1);
+                if which == 2 {
+                    w.in_publish(2, 7, false, &[sid], false);
+                    w.settle_check();
+                }
+                let at = w.sim.written_len() + fail_at;
+                w.sim.writer.0.borrow_mut().err_at = Some(at);
+                w.sim.note(|| format!("transport: writes fail from offset {at}"));
+                w.term = Some(Term::WriteErr);
+                match which {
+                    0 => w.in_publish(1, 5, false, &[sid], false),
+                    1 => w.in_publish(2, 5, false, &[sid], false),
+                    _ => w.in_pubrel(7),
+                }
+                w.settle_check();
+                let opts = match mode {
+                    0 => ResumeOpts { plain: true, ..Default::default() },
+                    1 => ResumeOpts { secs_ago: 1, sei: Some(3600), ..Default::default() },
+                    _ => ResumeOpts { secs_ago: 1, sei: None, expect_expired: true, ..Default::default() },
+                };
+                w.resume_full(opts);
+                w.settle_check();
+                if !w.blind {
+                    w.in_publish(0, 0, false, &[], false);
+                    w.settle_check();
+                    w.in_pubrel(9);
+                    w.settle_check();
+                    w.in_publish(1, 11, false, &[], false);
+                    w.settle_check();
+                    w.in_publish(2, 12, true, &[7777], false);
+                    w.settle_check();
+                    w.in_pubrel(12);
+                    w.settle_check();
+                }
+                super::script::finish(&mut w);
+                rep.add("evaluations", 1);
+                rep.add("ack_write_failure_cases", 1);
+                rep.distinct(&("ackfail", which, fail_at, mode));
+                if harvest(rep, &mut w, &id) == 0 {
+                    rep.sample(|| format!("{id}: {} acknowledgements matched on the new connection", w.counters.inbound_acks_matched));
+                }
+                add_counters(rep, &w);
+            }
+        }
+    }
     super::c09::wide(rep, 800_000_000);
     // random longer sequences with ids across the 16-bit range, interleaved with client operations
     let walks = if rep.quick() { 300 } else { 20000 };
